@@ -81,3 +81,21 @@ template void c10_node_members<ConformalMesh<Shape::Hypercube<3>, 3, double>>();
 template void c10_node_members<ConformalMesh<Shape::Simplex<1>, 1, double>>();
 template void c10_node_members<ConformalMesh<Shape::Simplex<2>, 2, double>>();
 template void c10_node_members<ConformalMesh<Shape::Simplex<3>, 3, double>>();
+
+// copy-like operations (move construction / move assignment / clone) of the mesh classes and their holders
+template class FEAT::Geometry::ConformalMesh<Shape::Hypercube<2>, 2, double>;
+template class FEAT::Geometry::ConformalMesh<Shape::Hypercube<3>, 3, double>;
+template class FEAT::Geometry::ConformalMesh<Shape::Simplex<2>, 2, double>;
+template class FEAT::Geometry::ConformalMesh<Shape::Simplex<3>, 3, double>;
+template class FEAT::Geometry::MeshPart<ConformalMesh<Shape::Hypercube<2>, 2, double>>;
+template class FEAT::Geometry::MeshPart<ConformalMesh<Shape::Hypercube<3>, 3, double>>;
+template class FEAT::Geometry::MeshPart<ConformalMesh<Shape::Simplex<2>, 2, double>>;
+template class FEAT::Geometry::MeshPart<ConformalMesh<Shape::Simplex<3>, 3, double>>;
+template class FEAT::Geometry::IndexSetHolder<Shape::Hypercube<3>>;
+template class FEAT::Geometry::IndexSetHolder<Shape::Simplex<3>>;
+template class FEAT::Geometry::TargetSetHolder<Shape::Hypercube<3>>;
+template class FEAT::Geometry::TargetSetHolder<Shape::Simplex<3>>;
+template class FEAT::Geometry::MeshPermutation<Shape::Hypercube<3>>;
+template class FEAT::Geometry::MeshPermutation<Shape::Simplex<3>>;
+template class FEAT::Geometry::IndexSet<4>;
+template class FEAT::Geometry::VertexSet<3, double>;
